@@ -31,7 +31,7 @@ def main():
         r = e.solve(ob, a.timeout, want_model=bool(a.dump), extract=(lambda eng, m: str(m)))
         print("%-8s %6.2fs  %s" % (r, ob.time, ob.name), ob.reason or "")
         if ob.kind == "probe":
-            if r == "unsat":
+            if ob.result == "unsat":
                 print("   ^^^ VACUOUS: assumptions are contradictory here")
                 bad += 1
             continue
